@@ -20,6 +20,10 @@ PY
   echo "$name: detected by [$det ]"
   python3 - "$d" "$det" <<'PY'
 import json,sys
-p=sys.argv[1]+'/meta.json'; m=json.load(open(p)); m['detected_by_checks']=sys.argv[2].split(); m['applies_to_current_tree']=True; json.dump(m,open(p,'w'),indent=1)
+p=sys.argv[1]+'/meta.json'; m=json.load(open(p)); now=sys.argv[2].split(); prop=m['property']
+old=[x for x in m.get('detected_by_checks',[]) if x!=prop and x not in now]
+m['detected_by_own_check']=prop in now
+m['detected_by_checks']=([prop] if prop in now else [])+[x for x in now if x!=prop]+old
+m['applies_to_current_tree']=True; json.dump(m,open(p,'w'),indent=1)
 PY
 done
